@@ -144,6 +144,8 @@ func TestVerifC07(t *testing.T) {
 		c07Scenario("pipeline-tcp-c1-dialhang-cancel", tOpt{Kind: "pipeline-tcp", Callers: 1, Srv: srvOpt{AnswerAll: true}, DialMenu: []int{0, 2}, CtxMode: []int{2}}, d, 0, false),
 		c07Scenario("pipeline-tcp-c1-seq2-cancel-during-dial", tOpt{Kind: "pipeline-tcp", Callers: 1, Seq: 2, Srv: srvOpt{AnswerAll: true}, CtxMode: []int{2}}, dt, 0, false),
 		c07Scenario("pipeline-tcp-c2-cancel-during-dial-closer", tOpt{Kind: "pipeline-tcp", Callers: 2, Srv: srvOpt{AnswerAll: true}, CtxMode: []int{2, 0}, Closer: true}, dt, 0, false),
+		c07Scenario("pipeline-tcp-c2-joiner-cancels-closer", tOpt{Kind: "pipeline-tcp", Callers: 2, MaxCq: 2, LazyQueue: 2, Srv: srvOpt{Mute: true}, CtxMode: []int{0, 2}, Closer: true}, dt, 0, false),
+		c07Scenario("pipeline-udp-c3-joiner-cancels-closer", tOpt{Kind: "pipeline-udp", Callers: 3, MaxCq: 3, LazyQueue: 3, Srv: srvOpt{Silent: true}, CtxMode: []int{0, 2, 1}, Closer: true}, dt-1, 0, false),
 		c07Scenario("pipeline-tcp-c2-dialstuck-closer", tOpt{Kind: "pipeline-tcp", Callers: 2, Srv: srvOpt{AnswerAll: true}, DialMenu: []int{0, 3}, Closer: true}, dt, 0, false),
 		c07Scenario("pipeline-tcp-c2-seq2-peerclosed", tOpt{Kind: "pipeline-tcp", Callers: 2, Seq: 2, Srv: srvOpt{AnswerAll: true}, DialMenu: []int{0, 4}, CtxMode: []int{1, 1}}, dt-1, 0, false),
 		c07Scenario("reuse-c2-dial-vs-closer", tOpt{Kind: "reuse", Callers: 2, Srv: srvOpt{AnswerAll: true}, Closer: true, CtxMode: []int{1, 1}}, d, 0, false),
